@@ -16,8 +16,9 @@ sys.path.insert(0, os.path.join(HERE, "checks"))
 from jobs import JOBS, ENGINE_INFO   # noqa: E402
 
 NCPU = min(16, os.cpu_count() or 1)
-REPLAYS = os.path.join(HERE, "replays")
-EVID = os.path.join(HERE, "evidence")
+OUT_ROOT = os.environ.get("VERIF_OUT_ROOT", HERE)       # scratch runs (mutants) write elsewhere
+REPLAYS = os.path.join(OUT_ROOT, "replays")
+EVID = os.path.join(OUT_ROOT, "evidence")
 KNOWN = os.path.join(HERE, "known_findings.txt")
 
 
@@ -31,7 +32,7 @@ def build(variant):
         sys.stdout.write(r.stdout[-3000:] + r.stderr[-6000:])
         print("MACHINERY-ERROR: build of variant %s failed" % variant)
         sys.exit(2)
-    return os.path.join(HERE, "build", variant, "cimsim")
+    return os.path.join(os.environ.get("VERIF_BUILD_ROOT", os.path.join(HERE, "build")), variant, "cimsim")
 
 
 # ---------------------------------------------------------------- crash classification
@@ -315,7 +316,8 @@ def check(prop, tier):
             lines_out.append("MACHINERY-ERROR: seed %d signature %s/%s did not reproduce in a fresh process (%s / %s)" % (seed, p, sig, r1[0] or r1[2], r2[0] or r2[2]))
             machinery_broken = True
             continue
-        mtext, mruns = minimise(exe, text, p, sig)
+        n_min = sum(1 for l in lines_out if l.startswith(("VIOLATION", "KNOWN-FINDING")))
+        mtext, mruns = minimise(exe, text, p, sig, budget=350 if n_min < 6 else 40)
         # final fresh replay of the minimised plan
         if not has_sig(exe, mtext, p, sig):
             mtext = text
